@@ -750,7 +750,7 @@ func checkC10Severities(c *Ctx, r *Report) {
 	viol := ""
 	for _, fi := range w.funcsOfPkg("core/validators") {
 		info := fi.Pkg.TypesInfo
-		ast.Inspect(fi.Decl, func(n ast.Node) bool {
+		w.inspectRegion(fi, func(n ast.Node) bool {
 			cl, ok := n.(*ast.CallExpr)
 			if !ok {
 				return true
@@ -860,7 +860,7 @@ func checkUrlParamExtractors(c *Ctx, r *Report) {
 	info := fi.Pkg.TypesInfo
 	var valPat string
 	handRolled := false
-	ast.Inspect(fi.Decl, func(n ast.Node) bool {
+	w.inspectRegion(fi, func(n ast.Node) bool {
 		switch x := n.(type) {
 		case *ast.CallExpr:
 			cn := calleeOfCall(info, x)
@@ -878,7 +878,7 @@ func checkUrlParamExtractors(c *Ctx, r *Report) {
 	})
 	// a package-level regexp used by the function
 	if valPat == "" {
-		ast.Inspect(fi.Decl, func(n ast.Node) bool {
+		w.inspectRegion(fi, func(n ast.Node) bool {
 			if id, ok := n.(*ast.Ident); ok {
 				if v, ok := info.Uses[id].(*types.Var); ok && v.Pkg() != nil && v.Parent() == v.Pkg().Scope() && strings.Contains(v.Type().String(), "regexp.Regexp") {
 					if pat, ok := w.globalRegexPattern(v); ok {
